@@ -109,20 +109,24 @@ enum Fam {
     Fft { rate_in: usize, rate_out: usize },
 }
 
-const C05_RATIOS: [f64; 9] = [0.25, 0.5, 0.8, 1.0, 1.2, 1.5, 2.0, 3.3, 147.0 / 160.0];
+const C05_RATIOS: [f64; 10] = [0.25, 0.5, 0.8, 1.0, 1.2, 1.5, 2.0, 3.3, 4.0, 147.0 / 160.0];
 
 fn c05_fams(tier: Tier) -> Vec<Fam> {
     let q = tier == Tier::Quick;
     let mut v = Vec::new();
-    let ratios: Vec<f64> = if q { vec![0.25, 0.5, 1.0, 1.2, 3.3, 147.0 / 160.0] } else { C05_RATIOS.to_vec() };
+    let ratios: Vec<f64> = if q { vec![0.25, 0.5, 0.8, 1.0, 1.2, 3.3, 4.0, 147.0 / 160.0] } else { C05_RATIOS.to_vec() };
     let sincs: Vec<(usize, usize, Interp)> = if q {
-        vec![(16, 16, Interp::Cubic), (16, 16, Interp::Linear), (16, 4, Interp::Nearest), (64, 128, Interp::Quadratic)]
+        vec![(16, 16, Interp::Cubic), (16, 16, Interp::Linear), (16, 4, Interp::Nearest), (16, 2, Interp::Nearest), (64, 128, Interp::Quadratic)]
     } else {
         vec![
             (16, 16, Interp::Cubic),
             (16, 16, Interp::Quadratic),
             (16, 16, Interp::Linear),
             (16, 4, Interp::Nearest),
+            // ratio 4 or 0.8 with two sub-filters: every other frame lies exactly half-way
+            // between two sub-filters
+            (16, 2, Interp::Nearest),
+            (16, 1, Interp::Nearest),
             (64, 128, Interp::Cubic),
             (64, 128, Interp::Linear),
         ]
@@ -194,6 +198,12 @@ struct C05Acc {
 /// sub-filter step for the sinc types) a rounding difference of the accumulated position
 /// legitimately selects the other neighbour. Those frames are excluded from the comparison.
 fn nearest_tie(cfg: &Cfg, j: usize) -> bool {
+    // a step with a short binary expansion is accumulated without any rounding: every chunking
+    // sees exactly the same position, ties included, and must resolve them the same way
+    let step = 1.0 / cfg.ratio;
+    if (step * 1024.0).fract() == 0.0 {
+        return false;
+    }
     let pos = (j + 1) as f64 / cfg.ratio;
     match cfg.kind {
         Kind::FI | Kind::FO if cfg.degree == Degree::Nearest => (pos - pos.round()).abs() < 1e-6,
